@@ -162,6 +162,15 @@ func (c05) Gen(seed uint64, tier string) Case {
 		for i := 0; i < nw; i++ {
 			writers = append(writers, genWriteOps(r, ph*3+i, 1+r.Intn(maxOps), types, nids, &uniq, r.Bool(0.6)))
 		}
+		for i := range writers {
+			for j := range writers[i] {
+				if r.Bool(0.15) {
+					// a write placed right after a controller finished reading / returned from its reconcile
+					writers[i][j].After = []string{"read:", "end:"}[r.Intn(2)] + c.Probes[r.Intn(len(c.Probes))].Name
+					writers[i][j].SleepMs = 0
+				}
+			}
+		}
 		c.Phases = append(c.Phases, writers)
 	}
 	prefixes = append(prefixes, "rt/", "writer")
@@ -442,7 +451,7 @@ func (c05) Run(t *testing.T, cs Case, trace bool) *Outcome {
 				recBefore += p.Reconciles
 			}
 			for i, ops := range writers {
-				wr := &writer{st: w.Core, acks: &acks, ev: &ev, out: out}
+				wr := &writer{st: w.Core, acks: &acks, ev: &ev, out: out, trig: w.Events}
 				s.Spawn(fmt.Sprintf("writer%d-%d", ph, i), func() {
 					for _, op := range ops {
 						wr.do(ctx, op)
